@@ -27,8 +27,9 @@ structure FieldEffect (o : Opts) (r : PReq) (n v : Bytes) (r' : PReq) : Prop whe
   strictVal : o.headerStrict = true → v.any lineCharInvalidStrict = false
   cl : n = nCL → v ≠ [] ∧ r.clSeen = false ∧ r'.clSeen = true ∧
         ∃ k, strtoInt64 v = some k ∧ r'.bodyLen = if r.bodyLen = 0 then (k : Int) else r.bodyLen
-  te : n = nTE → v ≠ [] → eqIcase v vChunked = true ∧ r.version = 1 ∧ r'.bodyLen = -1 ∧ r'.clSeen = r.clSeen
-  other : n ≠ nCL → (n = nTE → v = []) → r'.bodyLen = r.bodyLen ∧ r'.clSeen = r.clSeen
+  te : n = nTE → v ≠ [] ∧ eqIcase v vChunked = true ∧ r.version = 1 ∧ r.bodyLen ≠ -1 ∧ r'.bodyLen = -1 ∧
+        r'.clSeen = r.clSeen
+  other : n ≠ nCL → n ≠ nTE → r'.bodyLen = r.bodyLen ∧ r'.clSeen = r.clSeen
 
 theorem classify_cl_iff (n : Bytes) : classifyHeader n = .contentLength ↔ n = nCL := by
   constructor
@@ -122,9 +123,13 @@ theorem singleHeader_effect (o : Opts) (r r' : PReq) (n v : Bytes) (hv : v ≠ [
       split at h
       · simp at h
       · rename_i hch
-        simp at h; subst h
-        refine ⟨rfl, hs, fun e => absurd e e1, fun _ _ => ⟨by simpa [vChunked] using hch, by simpa using hver, rfl, rfl⟩,
-                fun _ hte => absurd (hte hn) hv⟩
+        split at h
+        · simp at h
+        · rename_i hdup
+          simp at h; subst h
+          refine ⟨rfl, hs, fun e => absurd e e1,
+                  fun _ => ⟨hv, by simpa [vChunked] using hch, by simpa using hver, hdup, rfl, rfl⟩,
+                  fun _ hte => absurd hn hte⟩
   | other =>
     have e1 : n ≠ nCL := fun e => by rw [(classify_cl_iff n).mpr e] at hk; simp at hk
     have e2 : n ≠ nTE := fun e => by rw [(classify_te_iff n).mpr e] at hk; simp at hk
@@ -140,8 +145,10 @@ theorem applyField_effect (o : Opts) (r r' : PReq) (n v : Bytes)
   · subst hv
     by_cases hn : n = ofString "content-length"
     · simp [hn] at h
-    · simp [hn] at h; subst h
-      exact ⟨rfl, fun _ => by simp, fun e => absurd e hn, fun _ hne => absurd rfl hne, fun _ _ => ⟨rfl, rfl⟩⟩
+    · by_cases hn2 : n = ofString "transfer-encoding"
+      · simp [hn2] at h
+      · simp [hn, hn2] at h; subst h
+        exact ⟨rfl, fun _ => by simp, fun e => absurd e hn, fun e => absurd e hn2, fun _ _ => ⟨rfl, rfl⟩⟩
   · have hve : v.isEmpty = false := by simpa using hv
     by_cases hst : (o.headerStrict && v.any lineCharInvalidStrict) = true
     · simp [hve, hst] at h
@@ -269,14 +276,15 @@ structure FramingInv (o : Opts) (r0 : PReq) (fs : List (Bytes × Bytes)) (r : PR
   clSeen : r.clSeen = true ↔ ∃ v, (nCL, v) ∈ fs
   clOnce : (fs.filter (fun f => f.1 = nCL)).length ≤ 1
   clNum : ∀ v, (nCL, v) ∈ fs → v ≠ [] ∧ ∃ k : Nat, strtoInt64 v = some k ∧ (r.bodyLen = (k : Int) ∨ r.bodyLen = -1)
-  chunked : r.bodyLen = -1 ↔ ∃ v, (nTE, v) ∈ fs ∧ v ≠ []
+  chunked : r.bodyLen = -1 ↔ ∃ v, (nTE, v) ∈ fs
+  teOnce : (fs.filter (fun f => f.1 = nTE)).length ≤ 1
   noCl : (¬ ∃ v, (nCL, v) ∈ fs) → r.bodyLen = 0 ∨ r.bodyLen = -1
-  te : ∀ v, (nTE, v) ∈ fs → v ≠ [] → eqIcase v vChunked = true ∧ r0.version = 1
+  te : ∀ v, (nTE, v) ∈ fs → v ≠ [] ∧ eqIcase v vChunked = true ∧ r0.version = 1
   strictVal : o.headerStrict = true → ∀ f ∈ fs, f.2.any lineCharInvalidStrict = false
 
 theorem FramingInv.init (o : Opts) (r0 : PReq) (h1 : r0.clSeen = false) (h2 : r0.bodyLen = 0) :
     FramingInv o r0 [] r0 :=
-  ⟨rfl, by simp [h1], by simp, by simp, by simp [h2], fun _ => Or.inl h2, by simp, by simp⟩
+  ⟨rfl, by simp [h1], by simp, by simp, by simp [h2], by simp, fun _ => Or.inl h2, by simp, by simp⟩
 
 theorem nCL_ne_nTE : nCL ≠ nTE := by decide
 
@@ -284,13 +292,19 @@ theorem FramingInv.step {o : Opts} {r0 r r1 : PReq} {pre : List (Bytes × Bytes)
     (inv : FramingInv o r0 pre r) (h : applyField o r (n, v) = .ok r1) :
     FramingInv o r0 (pre ++ [(n, v)]) r1 := by
   have eff := applyField_effect o r r1 n v h
+  have hsv : o.headerStrict = true → ∀ f ∈ pre ++ [(n, v)], f.2.any lineCharInvalidStrict = false := by
+    intro hso f hf
+    simp only [List.mem_append, List.mem_singleton] at hf
+    rcases hf with hf | hf
+    · exact inv.strictVal hso f hf
+    · subst hf; exact eff.strictVal hso
   by_cases hcl : n = nCL
   · -- a Content-Length field
     subst hcl
     obtain ⟨hv, hunseen, hseen, k, hk, hbl⟩ := eff.cl rfl
     have hnone : ¬ ∃ v, (nCL, v) ∈ pre := by
       intro hex; have := inv.clSeen.mpr hex; simp [hunseen] at this
-    refine ⟨eff.version.trans inv.version, ?_, ?_, ?_, ?_, ?_, ?_, ?_⟩
+    refine ⟨eff.version.trans inv.version, ?_, ?_, ?_, ?_, ?_, ?_, ?_, hsv⟩
     · simp [hseen]
     · have : pre.filter (fun f => f.1 = nCL) = [] := by
         rw [List.filter_eq_nil_iff]
@@ -318,32 +332,30 @@ theorem FramingInv.step {o : Opts} {r0 r r1 : PReq} {pre : List (Bytes × Bytes)
           split at hm
           · omega
           · exact hm
-        obtain ⟨w, hw, hwne⟩ := inv.chunked.mp this
-        exact ⟨w, by simp [hw], hwne⟩
-      · rintro ⟨w, hw, hwne⟩
+        obtain ⟨w, hw⟩ := inv.chunked.mp this
+        exact ⟨w, by simp [hw]⟩
+      · rintro ⟨w, hw⟩
         simp only [List.mem_append, List.mem_singleton, Prod.mk.injEq] at hw
         rcases hw with hw | ⟨hw, _⟩
-        · have := inv.chunked.mpr ⟨w, hw, hwne⟩
+        · have := inv.chunked.mpr ⟨w, hw⟩
           rw [this]; simp
         · exact absurd hw.symm nCL_ne_nTE
+    · have : ([(nCL, v)] : List (Bytes × Bytes)).filter (fun f => f.1 = nTE) = [] := by
+        simp [nCL_ne_nTE]
+      simp [List.filter_append, this, inv.teOnce]
     · intro hno
       exact absurd ⟨v, by simp⟩ hno
-    · intro w hw hwne
+    · intro w hw
       simp only [List.mem_append, List.mem_singleton, Prod.mk.injEq] at hw
       rcases hw with hw | ⟨hw, _⟩
-      · exact inv.te w hw hwne
+      · exact inv.te w hw
       · exact absurd hw.symm nCL_ne_nTE
-    · intro hso f hf
-      simp only [List.mem_append, List.mem_singleton] at hf
-      rcases hf with hf | hf
-      · exact inv.strictVal hso f hf
-      · subst hf; exact eff.strictVal hso
-  · by_cases hte : n = nTE ∧ v ≠ []
-    · -- a non-empty Transfer-Encoding field
-      obtain ⟨hn, hv⟩ := hte
-      subst hn
-      obtain ⟨hch, hver, hbl, hcs⟩ := eff.te rfl hv
-      refine ⟨eff.version.trans inv.version, ?_, ?_, ?_, ?_, ?_, ?_, ?_⟩
+  · by_cases hte : n = nTE
+    · -- a Transfer-Encoding field
+      subst hte
+      obtain ⟨hv, hch, hver, hnot, hbl, hcs⟩ := eff.te rfl
+      have hnone : ¬ ∃ v, (nTE, v) ∈ pre := fun hex => hnot (inv.chunked.mpr hex)
+      refine ⟨eff.version.trans inv.version, ?_, ?_, ?_, ?_, ?_, ?_, ?_, hsv⟩
       · rw [hcs, inv.clSeen]
         constructor
         · rintro ⟨w, hw⟩; exact ⟨w, by simp [hw]⟩
@@ -362,26 +374,22 @@ theorem FramingInv.step {o : Opts} {r0 r r1 : PReq} {pre : List (Bytes × Bytes)
           exact ⟨h1, k, hk, Or.inr hbl⟩
         · exact absurd hw nCL_ne_nTE
       · simp only [hbl, true_iff]
-        exact ⟨v, by simp, hv⟩
+        exact ⟨v, by simp⟩
+      · have : pre.filter (fun f => f.1 = nTE) = [] := by
+          rw [List.filter_eq_nil_iff]
+          intro f hf hfe
+          simp only [decide_eq_true_eq] at hfe
+          exact hnone ⟨f.2, by rw [← hfe]; exact hf⟩
+        simp [List.filter_append, this]
       · intro _; exact Or.inr hbl
-      · intro w hw hwne
+      · intro w hw
         simp only [List.mem_append, List.mem_singleton, Prod.mk.injEq, true_and] at hw
         rcases hw with hw | hw
-        · exact inv.te w hw hwne
-        · subst hw; exact ⟨hch, by rw [← inv.version]; exact hver⟩
-      · intro hso f hf
-        simp only [List.mem_append, List.mem_singleton] at hf
-        rcases hf with hf | hf
-        · exact inv.strictVal hso f hf
-        · subst hf; exact eff.strictVal hso
-    · -- any other field (or an empty Transfer-Encoding, which is ignored)
-      have hte' : n = nTE → v = [] := by
-        intro hn
-        apply Decidable.byContradiction
-        intro hv
-        exact hte ⟨hn, hv⟩
-      obtain ⟨hbl, hcs⟩ := eff.other hcl hte'
-      refine ⟨eff.version.trans inv.version, ?_, ?_, ?_, ?_, ?_, ?_, ?_⟩
+        · exact inv.te w hw
+        · subst hw; exact ⟨hv, hch, by rw [← inv.version]; exact hver⟩
+    · -- any other field
+      obtain ⟨hbl, hcs⟩ := eff.other hcl hte
+      refine ⟨eff.version.trans inv.version, ?_, ?_, ?_, ?_, ?_, ?_, ?_, hsv⟩
       · rw [hcs, inv.clSeen]
         constructor
         · rintro ⟨w, hw⟩; exact ⟨w, by simp [hw]⟩
@@ -400,27 +408,25 @@ theorem FramingInv.step {o : Opts} {r0 r r1 : PReq} {pre : List (Bytes × Bytes)
         · exact absurd hw.symm hcl
       · rw [hbl, inv.chunked]
         constructor
-        · rintro ⟨w, hw, hwne⟩; exact ⟨w, by simp [hw], hwne⟩
-        · rintro ⟨w, hw, hwne⟩
+        · rintro ⟨w, hw⟩; exact ⟨w, by simp [hw]⟩
+        · rintro ⟨w, hw⟩
           simp only [List.mem_append, List.mem_singleton, Prod.mk.injEq] at hw
-          rcases hw with hw | ⟨hw1, hw2⟩
-          · exact ⟨w, hw, hwne⟩
-          · subst hw2; exact absurd (hte' hw1.symm) hwne
+          rcases hw with hw | ⟨hw1, _⟩
+          · exact ⟨w, hw⟩
+          · exact absurd hw1.symm hte
+      · have : ([(n, v)] : List (Bytes × Bytes)).filter (fun f => f.1 = nTE) = [] := by
+          simp [hte]
+        simp [List.filter_append, this, inv.teOnce]
       · intro hno
         rw [hbl]
         apply inv.noCl
         rintro ⟨w, hw⟩
         exact hno ⟨w, by simp [hw]⟩
-      · intro w hw hwne
+      · intro w hw
         simp only [List.mem_append, List.mem_singleton, Prod.mk.injEq] at hw
-        rcases hw with hw | ⟨hw1, hw2⟩
-        · exact inv.te w hw hwne
-        · subst hw2; exact absurd (hte' hw1.symm) hwne
-      · intro hso f hf
-        simp only [List.mem_append, List.mem_singleton] at hf
-        rcases hf with hf | hf
-        · exact inv.strictVal hso f hf
-        · subst hf; exact eff.strictVal hso
+        rcases hw with hw | ⟨hw1, _⟩
+        · exact inv.te w hw
+        · exact absurd hw1.symm hte
 
 theorem FramingInv.run {o : Opts} {r0 : PReq} : ∀ (fs : List (Bytes × Bytes)) {pre : List (Bytes × Bytes)} {r r' : PReq},
     FramingInv o r0 pre r → applyFields o r fs = .ok r' → FramingInv o r0 (pre ++ fs) r' := by
@@ -437,5 +443,882 @@ theorem FramingInv.run {o : Opts} {r0 : PReq} : ∀ (fs : List (Bytes × Bytes))
       simp only [ha] at h
       have := ih (inv.step ha) h
       simpa using this
+
+/-! ### control characters in the request-target (burl_normalize) -/
+
+/-- control characters: 0x00-0x1f and DEL -/
+def isCtl (b : UInt8) : Bool := b < 32 || b = 127
+
+theorem forall_u8 (P : UInt8 → Prop) (h : ∀ n, n < 256 → P (UInt8.ofNat n)) : ∀ b, P b := by
+  intro b
+  have := h b.toNat (UInt8.toNat_lt b)
+  simpa using this
+
+theorem ctl_facts : ∀ b : UInt8, isCtl b = true →
+    reqd b = true ∧ b ≠ pct ∧ b ≠ hash ∧
+    (hexDigitUC (b >>> 4) < 50 ∨ (hexDigitUC (b >>> 4) = 55 ∧ hexDigitUC (b &&& 0xf) = 70)) := by
+  apply forall_u8
+  decide +kernel
+
+theorem hex_facts : ∀ b : UInt8, (hexVal b).isSome = true → isCtl b = false ∧ b ≠ hash := by
+  apply forall_u8
+  decide +kernel
+
+theorem notreqd_facts : ∀ b : UInt8, reqd b = false → isCtl b = false := by
+  apply forall_u8
+  decide +kernel
+
+/-- the (reversed) output holds the percent-encoding of a control character -/
+def HasCtlEnc (out : Bytes) : Prop :=
+  ∃ pre post h l, out = post ++ l :: h :: pct :: pre ∧ (h < 50 ∨ (h = 55 ∧ l = 70))
+
+theorem HasCtlEnc.append {out : Bytes} (x : Bytes) (h : HasCtlEnc out) : HasCtlEnc (x ++ out) := by
+  obtain ⟨pre, post, hh, l, he, hf⟩ := h
+  exact ⟨pre, x ++ post, hh, l, by simp [he], hf⟩
+
+theorem HasCtlEnc.cons {out : Bytes} (x : UInt8) (h : HasCtlEnc out) : HasCtlEnc (x :: out) :=
+  HasCtlEnc.append [x] h
+
+theorem containsCtrls_cons (x : UInt8) (ys : Bytes) (h : containsCtrls ys = true) :
+    containsCtrls (x :: ys) = true := by
+  cases ys with
+  | nil => simp [containsCtrls] at h
+  | cons a ys' =>
+    cases ys' with
+    | nil => simp [containsCtrls] at h
+    | cons b rest => simp only [containsCtrls]; simp [h]
+
+theorem containsCtrls_of_infix : ∀ (pre post : Bytes) (h l : UInt8), (h < 50 ∨ (h = 55 ∧ l = 70)) →
+    containsCtrls (pre ++ pct :: h :: l :: post) = true := by
+  intro pre
+  induction pre with
+  | nil =>
+    intro post h l hf
+    simp only [List.nil_append, containsCtrls]
+    rcases hf with hf | ⟨h1, h2⟩ <;> simp_all
+  | cons x pre' ih =>
+    intro post h l hf
+    exact containsCtrls_cons x _ (ih post h l hf)
+
+theorem containsCtrls_of_hasCtlEnc {out : Bytes} (h : HasCtlEnc out) : containsCtrls out.reverse = true := by
+  obtain ⟨pre, post, hh, l, he, hf⟩ := h
+  subst he
+  have : (post ++ l :: hh :: pct :: pre).reverse = pre.reverse ++ pct :: hh :: l :: post.reverse := by simp
+  rw [this]
+  exact containsCtrls_of_infix _ _ _ _ hf
+
+
+theorem normBasic_mono (req : Bool) : ∀ (n : Nat) (s : Bytes) (acc : NormAcc), s.length ≤ n →
+    HasCtlEnc acc.out → HasCtlEnc (normBasic req s acc).out := by
+  intro n
+  induction n with
+  | zero =>
+    intro s acc hl h
+    have : s = [] := List.length_eq_zero_iff.mp (by omega)
+    subst this
+    simpa [normBasic] using h
+  | succ n ih =>
+    intro s acc hl h
+    cases s with
+    | nil => simpa [normBasic] using h
+    | cons b rest =>
+      simp only [List.length_cons] at hl
+      rw [normBasic]
+      simp only []
+      repeat' split
+      all_goals first
+        | exact h
+        | (apply ih rest _ (by omega)
+           first | exact HasCtlEnc.cons _ h | exact HasCtlEnc.append _ h)
+        | (apply ih (rest.drop 2) _ (by have := List.length_drop (i := 2) (l := rest); omega)
+           first | exact HasCtlEnc.cons _ h | exact HasCtlEnc.cons _ (HasCtlEnc.cons _ (HasCtlEnc.cons _ h)))
+
+
+theorem hex2_some {rest : Bytes} {hv lv : UInt8} (h : hex2 rest = some (hv, lv)) :
+    ∃ h1 h2 rest', rest = h1 :: h2 :: rest' ∧ (hexVal h1).isSome = true ∧ (hexVal h2).isSome = true := by
+  unfold hex2 at h
+  split at h
+  · rename_i h1 h2 rest'
+    split at h
+    · rename_i a b ha hb
+      exact ⟨h1, h2, rest', rfl, by simp [ha], by simp [hb]⟩
+    · simp at h
+  · simp at h
+
+theorem mem_takeWhile_drop2 {rest : Bytes} {c : UInt8} (hx : ∃ hv lv, hex2 rest = some (hv, lv))
+    (hc : c ∈ rest.takeWhile (· ≠ hash)) (hctl : isCtl c = true) : c ∈ (rest.drop 2).takeWhile (· ≠ hash) := by
+  obtain ⟨hv, lv, hx⟩ := hx
+  obtain ⟨h1, h2, rest', rfl, e1, e2⟩ := hex2_some hx
+  have f1 := hex_facts h1 e1
+  have f2 := hex_facts h2 e2
+  simp only [List.takeWhile_cons, ne_eq, f1.2, f2.2, not_false_eq_true, decide_true, if_true,
+             List.mem_cons] at hc
+  rcases hc with rfl | rfl | hc
+  · simp [f1.1] at hctl
+  · simp [f2.1] at hctl
+  · simpa using hc
+
+/-- a control character before the first '#' leaves its percent-encoding in the normalised URL -/
+theorem normBasic_ctl (req : Bool) : ∀ (n : Nat) (s : Bytes) (acc : NormAcc), s.length ≤ n →
+    (∃ c ∈ s.takeWhile (· ≠ hash), isCtl c = true) → HasCtlEnc (normBasic req s acc).out := by
+  intro n
+  induction n with
+  | zero =>
+    intro s acc hl ⟨c, hc, _⟩
+    have : s = [] := List.length_eq_zero_iff.mp (by omega)
+    subst this
+    simp at hc
+  | succ n ih =>
+    intro s acc hl ⟨c, hc, hctl⟩
+    cases s with
+    | nil => simp at hc
+    | cons b rest =>
+      simp only [List.length_cons] at hl
+      by_cases hb : b = hash
+      · simp [hb] at hc
+      · simp only [List.takeWhile_cons, ne_eq, hb, not_false_eq_true, decide_true, if_true, List.mem_cons] at hc
+        rcases hc with rfl | hc
+        · -- the control character itself: it is percent-encoded
+          obtain ⟨f1, f2, f3, f4⟩ := ctl_facts c hctl
+          rw [normBasic]
+          simp only [f1, f2, f3, Bool.not_true, Bool.false_eq_true, if_false]
+          apply normBasic_mono req rest.length rest _ (Nat.le_refl _)
+          exact ⟨acc.out, [], hexDigitUC (c >>> 4), hexDigitUC (c &&& 0xf), by simp [pctEnc], f4⟩
+        · rw [normBasic]
+          simp only []
+          repeat' split
+          all_goals first
+            | (exact absurd (by assumption) hb)
+            | (apply ih rest _ (by omega); exact ⟨c, hc, hctl⟩)
+            | (apply ih (rest.drop 2) _ (by have := List.length_drop (i := 2) (l := rest); omega)
+               exact ⟨c, mem_takeWhile_drop2 ⟨_, _, by assumption⟩ hc hctl, hctl⟩)
+
+
+theorem burlNormalize_ctl (o : Opts) (hc : o.ctrlsReject = true) (s : Bytes)
+    (h : ∃ c ∈ s.takeWhile (· ≠ hash), isCtl c = true) : burlNormalize o s = none := by
+  have := containsCtrls_of_hasCtlEnc (normBasic_ctl o.urlRequired s.length s {} (Nat.le_refl _) h)
+  unfold burlNormalize
+  simp only [hc, this, Bool.true_and, if_true]
+  split <;> rfl
+
+theorem parseTarget_ctl (o : Opts) (hc : o.ctrlsReject = true) (hn : o.urlNormalize = true) (t : Bytes)
+    (h : ∃ c ∈ t.takeWhile (· ≠ hash), isCtl c = true) : parseTarget o false t = .error 400 := by
+  unfold parseTarget
+  simp [hn, burlNormalize_ctl o hc t h]
+
+
+/-! ### what accepted fields and request lines keep / establish -/
+
+def nHost : Bytes := ofString "host"
+
+@[simp] theorem appendHeader_host (r : PReq) (n v : Bytes) : (appendHeader r n v).host = r.host := by
+  unfold appendHeader; split <;> rfl
+@[simp] theorem appendHeader_target (r : PReq) (n v : Bytes) : (appendHeader r n v).target = r.target := by
+  unfold appendHeader; split <;> rfl
+@[simp] theorem setHost_target (r : PReq) (h : Bytes) : (setHost r h).target = r.target := rfl
+@[simp] theorem setHost_method (r : PReq) (h : Bytes) : (setHost r h).method = r.method := rfl
+
+theorem classify_host (n : Bytes) (h : classifyHeader n = .host) : n = nHost := by
+  unfold classifyHeader at h
+  split at h
+  · assumption
+  · repeat' split at h
+    all_goals simp at h
+
+/-- an accepted field leaves method and target alone; the host changes only through a Host field -/
+theorem singleHeader_keeps (r r' : PReq) (n v : Bytes) (h : singleHeader r n v = .ok r') :
+    r'.target = r.target ∧ r'.method = r.method ∧ (n ≠ nHost → r'.host = r.host) := by
+  unfold singleHeader at h
+  cases hk : classifyHeader n with
+  | host =>
+    refine ⟨?_, ?_, fun hn => absurd (classify_host n hk) hn⟩ <;>
+    · simp only [hk] at h
+      repeat' split at h
+      all_goals (first | (simp at h; done) | (simp only [Except.ok.injEq] at h; subst h; simp))
+  | _ =>
+    simp only [hk] at h
+    repeat' split at h
+    all_goals (first | (simp at h; done) | (simp only [Except.ok.injEq] at h; subst h; simp))
+
+
+theorem applyField_keeps (o : Opts) (r r' : PReq) (n v : Bytes) (h : applyField o r (n, v) = .ok r') :
+    r'.target = r.target ∧ r'.method = r.method ∧ (n ≠ nHost → r'.host = r.host) := by
+  unfold applyField at h
+  simp only at h
+  repeat' split at h
+  all_goals (first | (simp at h; done) | (simp only [Except.ok.injEq] at h; subst h; simp) |
+                     exact singleHeader_keeps r r' n v h)
+
+theorem applyFields_keeps (o : Opts) : ∀ (fs : List (Bytes × Bytes)) (r r' : PReq), applyFields o r fs = .ok r' →
+    r'.target = r.target ∧ r'.method = r.method ∧ ((∀ f ∈ fs, f.1 ≠ nHost) → r'.host = r.host) := by
+  intro fs
+  induction fs with
+  | nil => intro r r' h; simp [applyFields] at h; subst h; simp
+  | cons f rest ih =>
+    intro r r' h
+    obtain ⟨n, v⟩ := f
+    simp only [applyFields] at h
+    cases ha : applyField o r (n, v) with
+    | error e => simp [ha] at h
+    | ok r1 =>
+      simp only [ha] at h
+      obtain ⟨h1, h2, h3⟩ := applyField_keeps o r r1 n v ha
+      obtain ⟨g1, g2, g3⟩ := ih r1 r' h
+      refine ⟨g1.trans h1, g2.trans h2, fun hall => ?_⟩
+      rw [g3 (fun f hf => hall f (by simp [hf])), h3 (hall (n, v) (by simp))]
+
+/-! ### request line -/
+
+theorem reqlineUri_ok {o : Opts} {r r1 : PReq} {uri uri' : Bytes} (h : reqlineUri o r uri = .ok (r1, uri')) :
+    (r1 = r ∧ uri' = uri) ∨ (∃ host, r1 = setHost r host) := by
+  unfold reqlineUri at h
+  simp only at h
+  repeat' split at h
+  all_goals (first | (simp at h; done) |
+    (simp only [Except.ok.injEq, Prod.mk.injEq] at h; first | (exact .inl ⟨h.1.symm, h.2.symm⟩) | (exact .inr ⟨_, h.1.symm⟩)))
+
+/-- what an accepted request line establishes -/
+structure ReqlineOk (o : Opts) (line : Bytes) (r0 : PReq) : Prop where
+  fresh : r0.clSeen = false ∧ r0.bodyLen = 0
+  method : methodTable.contains r0.method = true
+  version : r0.version = 0 ∨ r0.version = 1
+  target : r0.target ≠ []
+  host : r0.host = none ∨ ∃ h, r0.host = some h ∧ r0.headers = [(nHost, h)]
+  strictEol : o.headerStrict = true → line.getD (line.length - 2) 0 = cr
+
+theorem parseReqlineCore_ok {o : Opts} {line : Bytes} {r1 : PReq} {uri : Bytes}
+    (h : parseReqlineCore o line = .ok (r1, uri)) :
+    (r1.clSeen = false ∧ r1.bodyLen = 0) ∧ methodTable.contains r1.method = true ∧
+    (r1.version = 0 ∨ r1.version = 1) ∧
+    (r1.host = none ∨ ∃ hh, r1.host = some hh ∧ r1.headers = [(nHost, hh)]) ∧
+    (o.headerStrict = true → line.getD (line.length - 2) 0 = cr) ∧ r1.target = [] := by
+  unfold parseReqlineCore at h
+  split at h
+  · simp at h
+  · simp only at h
+    split at h
+    · simp at h
+    · rename_i l hl
+      have hcr : o.headerStrict = true → line.getD (line.length - 2) 0 = cr := by
+        intro hs
+        split at hl
+        · assumption
+        · simp [hs] at hl
+      split at h
+      · simp at h
+      · rename_i ver hver
+        have hv : ver = 0 ∨ ver = 1 := by
+          split at hver
+          · simp at hver; exact .inr hver.symm
+          · split at hver
+            · simp at hver; exact .inl hver.symm
+            · simp at hver
+        split at h
+        · simp at h
+        · split at h
+          · simp at h
+          · rename_i hm
+            split at h
+            · simp at h
+            · split at h
+              · simp only [Except.ok.injEq, Prod.mk.injEq] at h
+                obtain ⟨h1, _⟩ := h
+                subst h1
+                exact ⟨⟨rfl, rfl⟩, by simpa using hm, hv, .inl rfl, hcr, rfl⟩
+              · rcases reqlineUri_ok h with ⟨h1, _⟩ | ⟨host, h1⟩
+                · subst h1
+                  exact ⟨⟨rfl, rfl⟩, by simpa using hm, hv, .inl rfl, hcr, rfl⟩
+                · subst h1
+                  exact ⟨⟨rfl, rfl⟩, by simpa using hm, hv, .inr ⟨_, rfl, rfl⟩, hcr, rfl⟩
+
+theorem parseReqline_ok {o : Opts} {line blk : Bytes} {r0 : PReq} (h : parseReqline o line blk = .ok r0) :
+    ReqlineOk o line r0 := by
+  unfold parseReqline at h
+  split at h
+  · simp at h
+  · rename_i r1 uri hc
+    obtain ⟨hf, hm, hv, hh, hcr, _⟩ := parseReqlineCore_ok hc
+    split at h
+    · simp at h
+    · rename_i hne
+      simp only at h
+      repeat' split at h
+      all_goals (first | (simp at h; done) |
+        (simp only [Except.ok.injEq] at h; subst h; exact ⟨hf, hm, hv, by simpa using hne, hh, hcr⟩))
+
+
+/-- the character checks of the request line step, read off an accepted line -/
+theorem parseReqline_checks {o : Opts} {line blk : Bytes} {r0 : PReq} (h : parseReqline o line blk = .ok r0) :
+    (o.headerStrict = false → blk.contains 0 = false) ∧
+    (o.headerStrict = true → (o.ctrlsReject = false ∨ r0.method = ofString "CONNECT") →
+       r0.target.any uriCharInvalidStrict = false) ∧
+    (o.headerStrict = true → o.ctrlsReject = true → r0.method ≠ ofString "CONNECT" →
+       fragmentInvalidStrict r0.target = false) := by
+  unfold parseReqline at h
+  split at h
+  · simp at h
+  · rename_i r1 uri hc
+    split at h
+    · simp at h
+    · simp only at h
+      cases hs : o.headerStrict <;> cases hcr : o.ctrlsReject <;>
+        by_cases hm : r1.method = ofString "CONNECT" <;>
+        simp only [hs, hcr, hm] at h <;>
+        (repeat' split at h) <;>
+        (first | (simp at h; done) | (simp_all; done) |
+                 (simp only [Except.ok.injEq] at h; subst h; simp_all))
+
+/-! ### lines of a head and its bytes -/
+
+theorem splitLines_spec : ∀ (b cur : Bytes), ∃ rem, cur ++ b = (splitLines b cur).flatten ++ rem ∧
+    ∀ l ∈ splitLines b cur, l.getLast? = some lf := by
+  intro b
+  induction b with
+  | nil => intro cur; exact ⟨cur, by simp [splitLines], by simp [splitLines]⟩
+  | cons x rest ih =>
+    intro cur
+    unfold splitLines
+    split
+    · rename_i hx
+      obtain ⟨rem, h1, h2⟩ := ih []
+      refine ⟨rem, ?_, ?_⟩
+      · simp only [List.flatten_cons, List.append_assoc]
+        simp only [List.nil_append] at h1
+        rw [← h1]; simp
+      · intro l hl
+        simp only [List.mem_cons] at hl
+        rcases hl with rfl | hl
+        · simp [hx]
+        · exact h2 l hl
+    · obtain ⟨rem, h1, h2⟩ := ih (cur ++ [x])
+      exact ⟨rem, by rw [← h1]; simp, h2⟩
+
+theorem takeHead_spec : ∀ (ls acc lines : List Bytes) (bl : Bytes), takeHead ls acc = some (lines, bl) →
+    ∃ rest, acc.reverse ++ ls = lines ++ bl :: rest ∧ isBlankLine bl = true ∧
+      ∀ l ∈ lines, l ∈ acc ∨ (l ∈ ls ∧ isBlankLine l = false) := by
+  intro ls
+  induction ls with
+  | nil => intro acc lines bl h; simp [takeHead] at h
+  | cons l rest ih =>
+    intro acc lines bl h
+    unfold takeHead at h
+    split at h
+    · rename_i hb
+      simp only [Option.some.injEq, Prod.mk.injEq] at h
+      obtain ⟨h1, h2⟩ := h
+      subst h1 h2
+      exact ⟨rest, rfl, hb, fun x hx => .inl (by simpa using hx)⟩
+    · rename_i hb
+      obtain ⟨rest', h1, h2, h3⟩ := ih (l :: acc) lines bl h
+      refine ⟨rest', by simpa using h1, h2, fun x hx => ?_⟩
+      rcases h3 x hx with h4 | ⟨h4, h5⟩
+      · simp only [List.mem_cons] at h4
+        rcases h4 with rfl | h4
+        · exact .inr ⟨by simp, by simpa using hb⟩
+        · exact .inl h4
+      · exact .inr ⟨by simp [h4], h5⟩
+
+/-- the lines `recvHead` hands to the parser ARE the bytes of the block up to and including the first
+    blank line: each ends in LF, none is blank -/
+theorem recvHead_head_bytes {mf : Nat} {block : Bytes} {lines : List Bytes} {len : Nat}
+    (h : recvHead mf block = .head lines len) :
+    ∃ bl, isBlankLine bl = true ∧ block.take len = lines.flatten ++ bl ∧ len = (lines.flatten ++ bl).length ∧
+      len ≤ mf ∧ lines ≠ [] ∧ ∀ l ∈ lines, isBlankLine l = false ∧ l.getLast? = some lf := by
+  unfold recvHead at h
+  simp only at h
+  split at h
+  · split at h <;> simp at h
+  · rename_i lines' bl hth
+    obtain ⟨rem, hs1, hs2⟩ := splitLines_spec block []
+    obtain ⟨rest, ht1, ht2, ht3⟩ := takeHead_spec _ _ _ _ hth
+    simp only [List.reverse_nil, List.nil_append] at ht1 hs1
+    split at h
+    · simp at h
+    · rename_i hsz
+      split at h
+      · simp at h
+      · rename_i hne
+        simp only [HeadOut.head.injEq] at h
+        obtain ⟨h1, h2⟩ := h
+        subst h1
+        have hlen : len = (lines'.flatten ++ bl).length := by
+          rw [← h2]; simp [List.length_flatten]
+        have hblock : block = (lines'.flatten ++ bl) ++ (rest.flatten ++ rem) := by
+          rw [hs1, ht1]; simp
+        refine ⟨bl, ht2, ?_, hlen, ?_, by simpa using hne, fun l hl => ?_⟩
+        · rw [hblock, hlen]; exact List.take_left' rfl
+        · simp only [Bool.or_eq_true, decide_eq_true_eq, not_or, Nat.not_lt] at hsz
+          omega
+        · rcases ht3 l hl with h4 | ⟨h4, h5⟩
+          · simp at h4
+          · exact ⟨h5, hs2 l h4⟩
+
+
+/-- an accepted head decomposes into its stages -/
+theorem parseHead_ok_decompose {o : Opts} {mf p : Nat} {block : Bytes} {r : PReq} {t : Target}
+    (h : parseHead o mf p block = .ok r t) :
+    ∃ rl fields len r0 r1, recvHead mf block = .head (rl :: fields) len ∧
+      parseReqline o rl (block.take len) = .ok r0 ∧
+      (o.headerStrict = true → block.getD (len - 2) 0 = cr) ∧
+      parseHeaders o r0 fields = .ok r1 ∧ parsePost o p r1 = .ok r t := by
+  unfold parseHead at h
+  split at h
+  · simp at h
+  · simp at h
+  · simp at h
+  · rename_i lines len hrh
+    split at h
+    · simp at h
+    · rename_i rl fields
+      split at h
+      · simp at h
+      · rename_i r0 hrl
+        split at h
+        · simp at h
+        · rename_i hbare
+          split at h
+          · simp at h
+          · rename_i r1 hph
+            split at h
+            · simp at h
+            · simp at h
+            · rename_i r' t' hpp
+              simp only [ReqOut.ok.injEq] at h
+              obtain ⟨h1, h2⟩ := h
+              subst h1 h2
+              refine ⟨rl, fields, len, r0, r1, hrh, hrl, fun hs => ?_, hph, hpp⟩
+              simpa [hs] using hbare
+
+/-- in strict mode the blank line that ends an accepted head is CRLF -/
+theorem strict_terminator_crlf {block : Bytes} {lines : List Bytes} {bl : Bytes} {len : Nat}
+    (hbl : isBlankLine bl = true) (htake : block.take len = lines.flatten ++ bl)
+    (hlen : len = (lines.flatten ++ bl).length) (hne : lines ≠ [])
+    (hlf : ∀ l ∈ lines, l.getLast? = some lf) (hcr : block.getD (len - 2) 0 = cr) : bl = [cr, lf] := by
+  unfold isBlankLine at hbl
+  simp only [Bool.or_eq_true, decide_eq_true_eq] at hbl
+  rcases hbl with rfl | rfl
+  · -- bare LF: the byte before it is the LF of the last line
+    exfalso
+    obtain ⟨init, last, rfl⟩ : ∃ init last, lines = init ++ [last] := by
+      have := List.eq_nil_or_concat lines
+      rcases this with h | ⟨i, l, h⟩
+      · exact absurd h hne
+      · exact ⟨i, l, by simpa using h⟩
+    have hl := hlf last (by simp)
+    obtain ⟨q, rfl⟩ : ∃ q, last = q ++ [lf] := by
+      cases hq : last.getLast? with
+      | none => simp [hq] at hl
+      | some c =>
+        obtain ⟨q, hq'⟩ := List.getLast?_eq_some_iff.mp hq
+        rw [hq] at hl
+        simp only [Option.some.injEq] at hl
+        subst hl
+        exact ⟨q, hq'⟩
+    have hlen' : len = (init.flatten ++ q).length + 2 := by
+      rw [hlen]; simp; omega
+    have : (block.take len).getD (len - 2) 0 = lf := by
+      rw [htake, hlen']
+      simp [List.getD_eq_getElem?_getD, List.getElem?_append]
+    have h2 : (block.take len).getD (len - 2) 0 = block.getD (len - 2) 0 := by
+      simp only [List.getD_eq_getElem?_getD]
+      rw [List.getElem?_take_of_lt (by omega)]
+    rw [h2, hcr] at this
+    exact absurd this (by decide)
+  · rfl
+
+
+theorem ctl_uriInvalid : ∀ c : UInt8, isCtl c = true → uriCharInvalidStrict c = true := by
+  apply forall_u8
+  decide +kernel
+
+/-- strict mode, any reachable option set: the target of an accepted request carries no control character
+    (NUL included) anywhere -- before a '#' by URL normalisation (or the strict scan), behind it by the
+    fragment check of the request line step -/
+theorem accepted_target_ctl_free {o : Opts} {p : Nat} {r0 r1 r : PReq} {t : Target} {line blk : Bytes}
+    (hrl : parseReqline o line blk = .ok r0) (ht : r1.target = r0.target) (hm : r1.method = r0.method)
+    (hpp : parsePost o p r1 = .ok r t) (hs : o.headerStrict = true)
+    (hreach : o.ctrlsReject = true → o.urlNormalize = true) : ∀ c ∈ r0.target, isCtl c = false := by
+  intro c hc
+  cases hctl : isCtl c with
+  | false => rfl
+  | true =>
+    exfalso
+    obtain ⟨_, hstrict, hfrag⟩ := parseReqline_checks hrl
+    by_cases hmode : o.ctrlsReject = false ∨ r0.method = ofString "CONNECT"
+    · have := hstrict hs hmode
+      rw [List.any_eq_false] at this
+      exact this c hc (ctl_uriInvalid c hctl)
+    · have hcr : o.ctrlsReject = true := by
+        cases h : o.ctrlsReject with
+        | true => rfl
+        | false => exact absurd (.inl h) hmode
+      have hnc : r0.method ≠ ofString "CONNECT" := fun h => hmode (.inr h)
+      have hf := hfrag hs hcr hnc
+      -- not behind the '#'
+      have hpre : c ∈ r0.target.takeWhile (· ≠ hash) := by
+        have hsplit := List.takeWhile_append_dropWhile (p := (· ≠ hash)) (l := r0.target)
+        rw [← hsplit] at hc
+        simp only [List.mem_append] at hc
+        rcases hc with hc | hc
+        · exact hc
+        · unfold fragmentInvalidStrict at hf
+          rw [List.any_eq_false] at hf
+          have h35 : (hash : UInt8) = 35 := rfl
+          exact absurd (ctl_uriInvalid c hctl) (hf c (by simpa [h35] using hc))
+      unfold parsePost at hpp
+      simp only [ht, hm] at hpp
+      by_cases hsp : ((r0.method = ofString "CONNECT") || (r0.method = ofString "OPTIONS" && r0.target = [42])) = true
+      · simp only [Bool.or_eq_true, decide_eq_true_eq, Bool.and_eq_true] at hsp
+        rcases hsp with h1 | ⟨_, h2⟩
+        · exact hnc h1
+        · rw [h2] at hc
+          simp only [List.mem_singleton] at hc
+          subst hc
+          simp [isCtl] at hctl
+      · have hsp' : ((r0.method = ofString "CONNECT") || (r0.method = ofString "OPTIONS" && r0.target = [42])) = false := by
+          simpa using hsp
+        rw [hsp', parseTarget_ctl o hcr (hreach hcr) r0.target ⟨c, hpre, hctl⟩] at hpp
+        simp at hpp
+
+
+theorem headerTable_nul_free : ∀ nm ∈ headerTable, (0 : UInt8) ∉ nm := by decide +kernel
+theorem methodTable_nul_free : ∀ nm ∈ methodTable, (0 : UInt8) ∉ nm := by decide +kernel
+
+theorem toLower_eq_zero : ∀ b : UInt8, toLower b = 0 → b = 0 := by
+  apply forall_u8
+  decide +kernel
+
+theorem nameCharBad_zero (strict : Bool) : nameCharBad strict 0 = true := by
+  cases strict <;> decide
+
+theorem name_nul_free (strict : Bool) (key : Bytes)
+    (hname : ¬ ((!hkeyKnown (key.map toLower) &&
+                 (key.dropWhile (fun b => isAlpha b || decide (b = 45))).any (nameCharBad strict)) = true)) :
+    (0 : UInt8) ∉ key.map toLower := by
+  intro hz
+  simp only [List.mem_map] at hz
+  obtain ⟨b, hb, hb0⟩ := hz
+  have hb0' := toLower_eq_zero b hb0
+  subst hb0'
+  by_cases hk : hkeyKnown (key.map toLower) = true
+  · unfold hkeyKnown at hk
+    have := headerTable_nul_free _ (by simpa using hk)
+    exact this (by simp only [List.mem_map]; exact ⟨0, hb, by decide⟩)
+  · have hk' : hkeyKnown (key.map toLower) = false := by simpa using hk
+    apply hname
+    simp only [hk', Bool.not_false, Bool.true_and, List.any_eq_true]
+    refine ⟨0, ?_, nameCharBad_zero _⟩
+    have hsplit := List.takeWhile_append_dropWhile (p := fun b => isAlpha b || decide (b = 45)) (l := key)
+    rw [← hsplit] at hb
+    simp only [List.mem_append] at hb
+    rcases hb with hb | hb
+    · have hall := List.all_takeWhile (l := key) (p := fun b => isAlpha b || decide (b = 45))
+      have := List.all_eq_true.mp hall 0 hb
+      simp [isAlpha, isUpper, isLower] at this
+    · exact hb
+
+/-- the name of an accepted field holds no NUL (any mode) -/
+theorem fieldOf_name_nul_free {o : Opts} {phys : List Bytes} {lc v : Bytes} (h : fieldOf o phys = .ok (lc, v)) :
+    (0 : UInt8) ∉ lc := by
+  unfold fieldOf at h
+  simp only at h
+  repeat' split at h
+  all_goals first
+    | (simp at h; done)
+    | (simp only [Except.ok.injEq, Prod.mk.injEq] at h
+       obtain ⟨h1, _⟩ := h
+       subst h1
+       exact name_nul_free o.headerStrict _ (by assumption))
+
+
+/-- the cross-field step keeps the framing: what it accepts has the body length, version, method and
+    target of its input; a lenient TE+CL request loses keep-alive -/
+theorem parsePost_ok_keeps {o : Opts} {p : Nat} {r1 r : PReq} {t : Target} (h : parsePost o p r1 = .ok r t) :
+    r.bodyLen = r1.bodyLen ∧ r.version = r1.version ∧ r.method = r1.method ∧ r.target = r1.target ∧
+    (r1.version ≥ 1 → r1.host ≠ none) ∧
+    (r1.bodyLen = -1 → r1.clSeen = true → o.headerStrict = false ∧ r.keepAlive = false) := by
+  unfold parsePost at h
+  simp only at h
+  split at h
+  · simp at h
+  · split at h
+    · simp at h
+    · simp at h
+    · rename_i rr hstep
+      have hb : rr.bodyLen = r1.bodyLen ∧ rr.version = r1.version ∧ rr.method = r1.method ∧
+                rr.target = r1.target ∧ rr.clSeen = r1.clSeen ∧ (r1.version ≥ 1 → r1.host ≠ none) := by
+        split at hstep
+        · rename_i hh
+          split at hstep <;> simp at hstep
+          subst hstep
+          refine ⟨rfl, rfl, rfl, rfl, rfl, fun hv => ?_⟩
+          rename_i hnv
+          exact absurd hv hnv
+        · rename_i hh hhost
+          split at hstep
+          · simp at hstep
+          · split at hstep
+            · simp at hstep
+            · split at hstep
+              · simp at hstep
+              · simp at hstep; subst hstep
+                exact ⟨rfl, rfl, rfl, rfl, rfl, fun _ => by simp [hhost]⟩
+      obtain ⟨hb1, hb2, hb3, hb4, hb5, hb6⟩ := hb
+      split at h
+      · simp at h
+      · split at h
+        · split at h
+          · simp at h
+          · simp only [HeadRes.ok.injEq] at h
+            obtain ⟨h1, _⟩ := h
+            subst h1
+            refine ⟨hb1, hb2, hb3, hb4, hb6, fun hm => ?_⟩
+            rename_i hz _ _
+            rw [hb1, hm] at hz; simp at hz
+        · rename_i hne
+          split at h
+          · simp at h
+          · rename_i hnstrict
+            have hfin : (rr.bodyLen = -1 → rr.clSeen = true → o.headerStrict = false) := by
+              intro h1 h2
+              simpa [h1, h2] using hnstrict
+            repeat' split at h
+            all_goals first
+              | (simp at h; done)
+              | (simp only [HeadRes.ok.injEq] at h
+                 obtain ⟨h1, _⟩ := h
+                 subst h1
+                 refine ⟨by simp [unsetHeader, hb1], by simp [unsetHeader, hb2], by simp [unsetHeader, hb3],
+                         by simp [unsetHeader, hb4], hb6, fun hm hc => ⟨hfin (by rw [hb1]; exact hm) (by rw [hb5]; exact hc), ?_⟩⟩
+                 first
+                   | (simp; done)
+                   | (exfalso
+                      have h1 : rr.bodyLen = -1 := by rw [hb1]; exact hm
+                      have h2 : rr.clSeen = true := by rw [hb5]; exact hc
+                      simp_all))
+
+/-! ### per-stage statements (used by the block-level theorems of Props/C01.lean) -/
+
+/-- the request state produced by the request line is "fresh": no body framing yet -/
+def Fresh (r0 : PReq) : Prop := r0.clSeen = false ∧ r0.bodyLen = 0
+
+/-- **Accepted field sections are unambiguous.**  If the header fields are accepted, then every
+    logical field line tokenised, and for the resulting list of (name, value) fields:
+    at most one Content-Length field and its value is all digits and fits int64; at most one
+    Transfer-Encoding field, its value exactly `chunked` (any case) and the request HTTP/1.1; in strict
+    mode no field value contains a control character; and the framing the parser reports is the
+    RFC 9112 §6.3 rule: chunked iff a Transfer-Encoding field is present, else the Content-Length
+    value, else no body. -/
+theorem stage_accepted_fields_unambiguous (o : Opts) (r0 r : PReq) (lines : List Bytes)
+    (hfresh : Fresh r0) (h : parseHeaders o r0 lines = .ok r) :
+    ∃ fs : List (Bytes × Bytes),
+      (groupFolds lines).map (fieldOf o) = fs.map Except.ok ∧
+      (fs.filter (fun f => f.1 = nCL)).length ≤ 1 ∧
+      (∀ v, (nCL, v) ∈ fs → v ≠ [] ∧ ∃ k : Nat, strtoInt64 v = some k) ∧
+      (fs.filter (fun f => f.1 = nTE)).length ≤ 1 ∧
+      (∀ v, (nTE, v) ∈ fs → v ≠ [] ∧ eqIcase v vChunked = true ∧ r0.version = 1) ∧
+      (o.headerStrict = true → ∀ f ∈ fs, f.2.any lineCharInvalidStrict = false) ∧
+      (r.bodyLen = -1 ↔ ∃ v, (nTE, v) ∈ fs) ∧
+      (r.bodyLen ≠ -1 → ∀ v, (nCL, v) ∈ fs → strtoInt64 v = some r.bodyLen.toNat ∧ 0 ≤ r.bodyLen) ∧
+      (r.bodyLen ≠ -1 → (¬ ∃ v, (nCL, v) ∈ fs) → r.bodyLen = 0) ∧
+      (r.clSeen = true ↔ ∃ v, (nCL, v) ∈ fs) := by
+  obtain ⟨fs, htok, happ⟩ := (parseHeaders_ok_iff o r0 r lines).mp h
+  have inv := FramingInv.run fs (FramingInv.init o r0 hfresh.1 hfresh.2) happ
+  simp only [List.nil_append] at inv
+  refine ⟨fs, htok, inv.clOnce, ?_, inv.teOnce, inv.te, inv.strictVal, inv.chunked, ?_, ?_, inv.clSeen⟩
+  · intro v hv
+    obtain ⟨h1, k, hk, _⟩ := inv.clNum v hv
+    exact ⟨h1, k, hk⟩
+  · intro hne v hv
+    obtain ⟨_, k, hk, hb⟩ := inv.clNum v hv
+    rcases hb with hb | hb
+    · rw [hb]; simp [hk]
+    · exact absurd hb hne
+  · intro hne hno
+    rcases inv.noCl hno with h0 | h1
+    · exact h0
+    · exact absurd h1 hne
+
+/-- repeated Content-Length is always rejected (every mode) -/
+theorem stage_repeated_content_length_rejected (o : Opts) (r0 : PReq) (lines : List Bytes)
+    (fs : List (Bytes × Bytes)) (hfresh : Fresh r0)
+    (htok : (groupFolds lines).map (fieldOf o) = fs.map Except.ok)
+    (hdup : 2 ≤ (fs.filter (fun f => f.1 = nCL)).length) :
+    ∀ r, parseHeaders o r0 lines ≠ .ok r := by
+  intro r h
+  obtain ⟨fs', htok', hone, _⟩ := stage_accepted_fields_unambiguous o r0 r lines hfresh h
+  have : fs' = fs := by
+    have := htok'.symm.trans htok
+    exact (List.map_inj_right (fun a b hab => by injection hab)).mp this
+  subst this
+  omega
+
+/-- a Content-Length that is empty, non-numeric or larger than INT64_MAX is always rejected -/
+theorem stage_bad_content_length_rejected (o : Opts) (r0 : PReq) (lines : List Bytes)
+    (fs : List (Bytes × Bytes)) (v : Bytes) (hfresh : Fresh r0)
+    (htok : (groupFolds lines).map (fieldOf o) = fs.map Except.ok)
+    (hmem : (nCL, v) ∈ fs) (hbad : v = [] ∨ strtoInt64 v = none) :
+    ∀ r, parseHeaders o r0 lines ≠ .ok r := by
+  intro r h
+  obtain ⟨fs', htok', _, hnum, _⟩ := stage_accepted_fields_unambiguous o r0 r lines hfresh h
+  have : fs' = fs := by
+    have := htok'.symm.trans htok
+    exact (List.map_inj_right (fun a b hab => by injection hab)).mp this
+  subst this
+  obtain ⟨hne, k, hk⟩ := hnum v hmem
+  rcases hbad with hb | hb
+  · exact hne hb
+  · simp [hb] at hk
+
+/-- Transfer-Encoding that is empty, other than exactly `chunked`, or on HTTP/1.0, is always rejected -/
+theorem stage_bad_transfer_encoding_rejected (o : Opts) (r0 : PReq) (lines : List Bytes)
+    (fs : List (Bytes × Bytes)) (v : Bytes) (hfresh : Fresh r0)
+    (htok : (groupFolds lines).map (fieldOf o) = fs.map Except.ok)
+    (hmem : (nTE, v) ∈ fs)
+    (hbad : v = [] ∨ eqIcase v vChunked = false ∨ r0.version ≠ 1) :
+    ∀ r, parseHeaders o r0 lines ≠ .ok r := by
+  intro r h
+  obtain ⟨fs', htok', _, _, _, hte, _⟩ := stage_accepted_fields_unambiguous o r0 r lines hfresh h
+  have : fs' = fs := by
+    have := htok'.symm.trans htok
+    exact (List.map_inj_right (fun a b hab => by injection hab)).mp this
+  subst this
+  obtain ⟨h0, h1, h2⟩ := hte v hmem
+  rcases hbad with hb | hb | hb
+  · exact h0 hb
+  · simp [hb] at h1
+  · exact hb h2
+
+/-- strict mode: a control character (other than HT) in any field value is rejected -/
+theorem stage_ctl_in_value_rejected_strict (o : Opts) (r0 : PReq) (lines : List Bytes)
+    (fs : List (Bytes × Bytes)) (f : Bytes × Bytes) (hfresh : Fresh r0) (hs : o.headerStrict = true)
+    (htok : (groupFolds lines).map (fieldOf o) = fs.map Except.ok)
+    (hmem : f ∈ fs) (hbad : f.2.any lineCharInvalidStrict = true) :
+    ∀ r, parseHeaders o r0 lines ≠ .ok r := by
+  intro r h
+  obtain ⟨fs', htok', _, _, _, _, hsv, _⟩ := stage_accepted_fields_unambiguous o r0 r lines hfresh h
+  have : fs' = fs := by
+    have := htok'.symm.trans htok
+    exact (List.map_inj_right (fun a b hab => by injection hab)).mp this
+  subst this
+  have := hsv hs f hmem
+  simp [hbad] at this
+
+/-- strict mode: Content-Length together with Transfer-Encoding is rejected;
+    every mode: HTTP/1.1 without Host is rejected -/
+theorem stage_te_and_cl_rejected_strict (o : Opts) (port : Nat) (r : PReq)
+    (hs : o.headerStrict = true) (hte : r.bodyLen = -1) (hcl : r.clSeen = true) :
+    ∀ r' t, parsePost o port r ≠ .ok r' t := by
+  intro r' t h
+  unfold parsePost at h
+  simp only at h
+  split at h
+  · simp at h
+  · split at h
+    · simp at h
+    · simp at h
+    · rename_i rr hstep
+      -- the host step does not touch bodyLen / clSeen
+      have hb : rr.bodyLen = -1 ∧ rr.clSeen = true := by
+        split at hstep
+        · split at hstep <;> simp at hstep; subst hstep; exact ⟨hte, hcl⟩
+        · split at hstep
+          · simp at hstep
+          · split at hstep
+            · simp at hstep
+            · split at hstep
+              · simp at hstep
+              · simp at hstep; subst hstep; exact ⟨hte, hcl⟩
+      split at h
+      · simp at h
+      · split at h
+        · rename_i h0; rw [hb.1] at h0; simp at h0
+        · simp [hb.1, hb.2, hs] at h
+
+theorem stage_http11_without_host_rejected (o : Opts) (port : Nat) (r : PReq)
+    (hv : r.version ≥ 1) (hh : r.host = none) :
+    ∀ r' t, parsePost o port r ≠ .ok r' t := by
+  intro r' t h
+  unfold parsePost at h
+  simp only at h
+  split at h
+  · simp at h
+  · simp [hh, hv] at h
+
+/-- strict mode: a request line that does not end in CRLF (bare LF) is rejected -/
+theorem stage_bare_lf_reqline_rejected_strict (o : Opts) (line block : Bytes)
+    (hs : o.headerStrict = true) (hlf : line.getD (line.length - 2) 0 ≠ cr) :
+    parseReqline o line block = .error 400 := by
+  have : parseReqlineCore o line = .error 400 := by
+    unfold parseReqlineCore
+    split
+    · rfl
+    · simp [hlf, hs]
+  simp [parseReqline, this]
+
+/-- strict mode: whitespace between field name and colon is rejected -/
+theorem stage_ws_before_colon_rejected_strict (o : Opts) (first : Bytes) (conts : List Bytes) (ci : Nat)
+    (hs : o.headerStrict = true) (hci : findIdx (· = colon) first 0 = some ci)
+    (hws : ((first.take ci).getLast?.map isWs).getD false = true) :
+    fieldOf o (first :: conts) = .error 400 := by
+  unfold fieldOf
+  simp [hci, hws, hs]
+
+/-- strict mode: an accepted (unfolded) field line ends in CRLF — bare LF is rejected -/
+theorem stage_bare_lf_field_rejected_strict (o : Opts) (line : Bytes) (f : Bytes × Bytes)
+    (hs : o.headerStrict = true) (h : fieldOf o [line] = .ok f) :
+    line.length ≥ 2 ∧ line.getD (line.length - 2) 0 = cr := by
+  obtain ⟨j, body, hj, hb⟩ := fieldOf_ok_stripEol o [line] f h
+  rw [hs] at hj hb
+  simp only [joinFolds, Option.some.injEq] at hj
+  subst hj
+  exact stripEol_strict_crlf line body hb
+
+/-- lenient mode: a NUL byte anywhere in the header block is rejected by the request line step -/
+theorem stage_nul_rejected_lenient (o : Opts) (line block : Bytes)
+    (hs : o.headerStrict = false) (hnul : block.contains 0 = true) :
+    ∀ r, parseReqline o line block ≠ .ok r := by
+  intro r h
+  unfold parseReqline at h
+  cases hc : parseReqlineCore o line with
+  | error e => simp [hc] at h
+  | ok p =>
+    obtain ⟨r1, uri⟩ := p
+    simp only [hc] at h
+    by_cases he : uri.isEmpty = true
+    · simp [he] at h
+    · have hm : (0 : UInt8) ∈ block := by simpa using hnul
+      simp [he, hs, hm] at h
+
+/-- strict mode: a control character, space or DEL in the request-target is rejected by the
+    request line step when URL control-character rejection is off, and always for CONNECT -/
+theorem stage_ctl_in_target_rejected_strict (o : Opts) (line block : Bytes) (r1 : PReq) (uri : Bytes)
+    (hs : o.headerStrict = true) (hcore : parseReqlineCore o line = .ok (r1, uri))
+    (hmode : o.ctrlsReject = false ∨ r1.method = ofString "CONNECT")
+    (hbad : uri.any uriCharInvalidStrict = true) :
+    parseReqline o line block = .error 400 := by
+  unfold parseReqline
+  simp only [hcore, hs]
+  split
+  · rfl
+  · rcases hmode with hm | hm <;> simp [hm, hbad]
+
+/-- default parse options (header-strict and url-ctrls-reject): the check of the target is
+    left to URL normalisation, which drops a fragment unread — so the request line step itself
+    rejects a control character, space, NUL or DEL anywhere behind the first '#' (D61) -/
+theorem stage_ctl_in_fragment_rejected_default (o : Opts) (line block : Bytes) (r1 : PReq) (uri : Bytes)
+    (hs : o.headerStrict = true) (hcore : parseReqlineCore o line = .ok (r1, uri))
+    (hbad : fragmentInvalidStrict uri = true) :
+    parseReqline o line block = .error 400 := by
+  unfold parseReqline
+  simp only [hcore, hs]
+  split
+  · rfl
+  · have hall : uri.any uriCharInvalidStrict = true := by
+      unfold fragmentInvalidStrict at hbad
+      simp only [List.any_eq_true] at hbad ⊢
+      obtain ⟨b, hb, hbb⟩ := hbad
+      exact ⟨b, (List.dropWhile_sublist _).subset hb, hbb⟩
+    split <;> simp_all
 
 end LtVerif
